@@ -1,8 +1,9 @@
-import OdxVerif.Proofs.CompReject2Mux
-/-! Compositional tier, rejection side, second part (task W18, C04): the inductive class **`DescribedP22`** of parameter
-    DESCRIPTIONS — `DescribedP2` (`Proofs/CompRejectDescribed.lean`) with VALUE leaves (with or without PHYSICAL-DEFAULT-VALUE)
-    of **all nine kinds** — is sound for inputs whose atoms Python can supply (`DescribedP22.okW : DescribedP22 p → p.OkW`);
-    every `DescribedP2` description is `DescribedP22`; the message level (`encodeMessage_nested2_cases`). -/
+import OdxVerif.Proofs.CompReject2ByteSize
+/-! Compositional tier, rejection side, second part (task W18, C04): the inductive class **`DescribedP2`** of parameter
+    DESCRIPTIONS — `DescribedP` (`Proofs/CompRejectDescribed.lean`) with VALUE leaves (with or without PHYSICAL-DEFAULT-VALUE)
+    of **all nine kinds**, VALUE parameters typed by a STRUCTURE with BYTE-SIZE, and field items with optional BYTE-SIZE — is
+    sound for inputs whose atoms Python can supply (`DescribedP2.okW : DescribedP2 p → p.OkW`); the message level
+    (`encodeMessage_nested2_cases`). -/
 namespace OdxVerif.Codec
 open OdxVerif.Bits OdxVerif.OdxM
 
@@ -14,16 +15,21 @@ inductive DescribedP2 : PDesc → Prop
   | struct (name : String) (bp : Option Nat) (ps : List PDesc) :
       (∀ p ∈ ps, DescribedP2 p) → PDescs.namesOk ps → PDescs.eopLast ps →
       DescribedP2 (PDesc.ofValue name bp (DDesc.struct ps))
-  | staticField (name : String) (bp : Option Nat) (count itemSize : Nat) (shape : List PDesc) :
+  | structBS (name : String) (bp : Option Nat) (bs : Nat) (ps : List PDesc) :
+      (∀ p ∈ ps, DescribedP2 p) → PDescs.namesOk ps → PDescs.anyEop ps = false →
+      DescribedP2 (PDesc.ofValue name bp (DDesc.structBS bs ps))
+  | staticField (name : String) (bp : Option Nat) (count itemSize : Nat) (bso : Option Nat) (shape : List PDesc) :
       (∀ p ∈ shape, DescribedP2 p) → PDescs.namesOk shape → PDescs.anyEop shape = false →
-      DescribedP2 (PDesc.ofValue name bp (DDesc.staticField count itemSize (DDesc.struct shape)))
-  | dynLenField (name : String) (bp : Option Nat) (l : DynLayout) (shape : List PDesc) :
-      (∀ p ∈ shape, DescribedP2 p) → PDescs.namesOk shape → PDescs.anyEop shape = false → 1 ≤ PDescs.lastAdv shape →
+      DescribedP2 (PDesc.ofValue name bp (DDesc.staticField count itemSize (DDesc.structO bso shape)))
+  | dynLenField (name : String) (bp : Option Nat) (l : DynLayout) (bso : Option Nat) (shape : List PDesc) :
+      (∀ p ∈ shape, DescribedP2 p) → PDescs.namesOk shape → PDescs.anyEop shape = false →
+      1 ≤ (DDesc.structO bso shape).minSize →
       l.cntObj.ok → l.cntObj.isInt → l.cntBp + l.cntObj.k ≤ l.offset →
-      DescribedP2 (PDesc.ofValue name bp (DDesc.dynLenField l (DDesc.struct shape)))
-  | eopField (name : String) (bp : Option Nat) (mn mx : Option Nat) (shape : List PDesc) :
-      (∀ p ∈ shape, DescribedP2 p) → PDescs.namesOk shape → PDescs.anyEop shape = false → 1 ≤ PDescs.lastAdv shape →
-      DescribedP2 (PDesc.ofValue name bp (DDesc.eopField mn mx (DDesc.struct shape)))
+      DescribedP2 (PDesc.ofValue name bp (DDesc.dynLenField l (DDesc.structO bso shape)))
+  | eopField (name : String) (bp : Option Nat) (mn mx : Option Nat) (bso : Option Nat) (shape : List PDesc) :
+      (∀ p ∈ shape, DescribedP2 p) → PDescs.namesOk shape → PDescs.anyEop shape = false →
+      1 ≤ (DDesc.structO bso shape).minSize →
+      DescribedP2 (PDesc.ofValue name bp (DDesc.eopField mn mx (DDesc.structO bso shape)))
   | mux (name : String) (bp : Option Nat) (m : MuxShape) :
       (∀ c ∈ m.cases, ∀ p ∈ c.kids, DescribedP2 p) → (∀ c ∈ m.cases, PDescs.namesOk c.kids ∧ PDescs.eopLast c.kids) →
       (∀ dn kids, m.dflt = some (dn, kids) → (∀ p ∈ kids, DescribedP2 p)) →
@@ -39,15 +45,16 @@ theorem DescribedP2.okW {p : PDesc} (h : DescribedP2 p) : p.OkW := by
   | const o c ho hc => exact (PDesc.ofObjConst_ok o c ho hc).toW
   | physConst o c ho hc => exact (PDesc.ofObjPhysConst_ok o c ho hc).toW
   | struct name bp ps _ hn hl ih => exact PDesc.ofValue_okW name bp _ (DDesc.struct_okW ps ih hn hl)
-  | staticField name bp count n shape _ hn hne ih =>
+  | structBS name bp bs ps _ hn hne ih => exact PDesc.ofValue_okW name bp _ (DDesc.structBS_okW bs ps ih hn hne)
+  | staticField name bp count n bso shape _ hn hne ih =>
     exact PDesc.ofValue_okW name bp _ (DDesc.staticField_okW count n _
-      (DDesc.struct_okW shape ih hn (PDescs.eopLast_of_noEop shape hne)) hne)
-  | dynLenField name bp l shape _ hn hne hadv hc hint hoff ih =>
+      (DDesc.structO_okW bso shape ih hn hne) (DDesc.structO_mayEop bso shape hne))
+  | dynLenField name bp l bso shape _ hn hne hadv hc hint hoff ih =>
     exact PDesc.ofValue_okW name bp _ (DDesc.dynLenField_okW l _
-      (DDesc.struct_okW shape ih hn (PDescs.eopLast_of_noEop shape hne)) hne hadv hc hint hoff)
-  | eopField name bp mn mx shape _ hn hne hadv ih =>
+      (DDesc.structO_okW bso shape ih hn hne) (DDesc.structO_mayEop bso shape hne) hadv hc hint hoff)
+  | eopField name bp mn mx bso shape _ hn hne hadv ih =>
     exact PDesc.ofValue_okW name bp _ (DDesc.eopField_okW mn mx _
-      (DDesc.struct_okW shape ih hn (PDescs.eopLast_of_noEop shape hne)) hne hadv)
+      (DDesc.structO_okW bso shape ih hn hne) (DDesc.structO_mayEop bso shape hne) hadv)
   | mux name bp m _ hcs _ hds hk hint hcases ih ihd =>
     refine PDesc.ofValue_okW name bp _ (DDesc.mux_okW m.toDesc hk hint ?_ hcases)
     intro d hd
